@@ -25,26 +25,18 @@ example : getSequence (originLines c!"acgtACGTnnacgtacgtacgtaa" 3 2 ++ [c!"//", 
 
 /-! ## LOCUS -/
 
-/- Full statement (false, see the witness):
-   `∀ l n ℓ, wfLocus l → parseLocus (locusLine l n ℓ) = .ok (toLocus l n)` -/
-
-/-- LOCUS name, length (every number of digits), molecule type (DNA, mRNA, tRNA, rRNA), topology,
-division (all 18) and date are recovered for every choice of the six gaps — for every locus that is not
-called `linear` / `circular` while having the other topology (known finding C01-locus-name-topology). -/
-theorem locus_recovered_partial (l : RLocus) (n : Nat) (ℓ : RecLayout) (h : wfLocus l = true)
-    (ht : nameTopoTrapL l = false) : parseLocus (locusLine l n ℓ) = .ok (toLocus l n) :=
-  parseLocus_locusLine l n ℓ h ht
+/-- LOCUS name (any blank-free token), length (every number of digits), molecule type (DNA, mRNA,
+tRNA, rRNA), topology, division (all 18) and date are recovered for every choice of the six gaps. -/
+theorem locus_recovered (l : RLocus) (n : Nat) (ℓ : RecLayout) (h : wfLocus l = true) :
+    parseLocus (locusLine l n ℓ) = .ok (toLocus l n) :=
+  parseLocus_locusLine l n ℓ h
 
 example : wfLocus ⟨c!"puc19", .dna, .circular, 9, c!"22-OCT-2019"⟩ = true
-    ∧ nameTopoTrapL ⟨c!"puc19", .dna, .circular, 9, c!"22-OCT-2019"⟩ = false := by decide
+    ∧ wfLocus ⟨c!"linear", .mrna, .circular, 0, c!"01-JAN-1999"⟩ = true := by decide
 
-/-- known finding C01-locus-name-topology: a locus called `linear` with circular topology -/
-theorem locus_name_topology_witness :
-    ¬ (∀ (l : RLocus) (n : Nat) (ℓ : RecLayout), wfLocus l = true → parseLocus (locusLine l n ℓ) = .ok (toLocus l n)) := by
-  intro h
-  have := h ⟨c!"linear", .dna, .circular, 6, c!"01-JAN-2020"⟩ 4 {} (by decide)
-  revert this
-  decide
+/-- a two-digit length, a locus called `linear` with circular topology, single blanks -/
+example : parseLocus (locusLine ⟨c!"linear", .trna, .circular, 6, c!"01-JAN-2020"⟩ 20 {})
+    = .ok (toLocus ⟨c!"linear", .trna, .circular, 6, c!"01-JAN-2020"⟩ 20) := locus_recovered _ _ _ (by decide)
 
 /-! ## keyword blocks -/
 
